@@ -87,6 +87,9 @@ class Model:
                 r.content = None      # redo has seen foreign content: whatever it generates next is a change
                 if r.built and r.phony:
                     r.user_removed = True     # the rule of a target without output runs again as well (C11: removal hands it back to redo)
+            elif r.built and not r.phony:
+                # redo never looked at the user's version: for redo this is its own output, removed by hand
+                r.removed_mark = True
             r.user_seen = False
         elif r.built and not r.phony:
             r.removed_mark = True
@@ -151,6 +154,10 @@ class Model:
 
     def dep_state(self, d, v, ctx, memo):
         """Contribution of a recorded dependency d (version v seen at the dependent's last build)."""
+        if self.is_target(d) and ctx['done'].get(d) is False:
+            # failed in this run: that is what redo looks at first, whatever else has changed about it (a failing script may have
+            # modified the file as well)
+            return 'dirty', 'dep-failed:' + d
         if self.ver(d) != v:
             if d in self.R and self.R[d].owner == 'user' and self.R[d].stamped and not self.R[d].user_seen:
                 # a checksummed target that the user has overwritten and that redo has not looked at since: its record still
@@ -665,7 +672,8 @@ class Model:
             return False
         cnt = ctx.get('obsn') or {}
         for x in names:
-            if x in ctx['obs'] and cnt.get(x, 1) > ctx['ran'].count(x):
+            # (executions that forced targets still to come on this command line will need are not "more")
+            if x in ctx['obs'] and cnt.get(x, 1) - ctx.get('pending_forced', []).count(x) > ctx['ran'].count(x):
                 return True
         return False
 
